@@ -66,6 +66,17 @@ ExtremeAxisCases(shape) ==
       /\ P(CaseRec("unsqueeze", "Unsqueeze", <<>>, <<X, T("i64", <<1>>, <<e>>)>>, MustError, <<"invalid", "extreme_axis">>))
       /\ (Len(shape) >= 1 => P(CaseRec("squeeze", "Squeeze", <<>>, <<X, T("i64", <<2>>, <<Fin(0), e>>)>>, MustError, <<"invalid", "extreme_axis">>)))
 
+\* long tensors (an element count that is no multiple of a block size): every element is carried over, in order
+LongN == 40003
+LongCases ==
+   LET X == Iota("f32", <<LongN>>, 0) X2 == Iota("i64", <<1, LongN, 1>>, 0) IN
+   /\ \A tg \in {<<1, -1>>, <<-1, 1, 1>>, <<LongN>>, <<0, 1>>} : P(CaseRec("long", "Reshape", <<>>, <<X, I64(tg)>>, SemReshape(X, I64(tg)), <<"valid", "long">>))
+   /\ \A ax \in {0, 1, -1, 2} : P(CaseRec("long", "Flatten", <<AI("axis", ax)>>, <<X2>>, SemFlatten(X2, ax), <<"valid", "long">>))
+   /\ P(CaseRec("long", "Squeeze", <<>>, <<X2>>, SemSqueeze(X2, Nil), <<"valid", "long">>))
+   /\ P(CaseRec("long", "Squeeze", <<>>, <<X2, I64(<<-1>>)>>, SemSqueeze(X2, I64(<<-1>>)), <<"valid", "long">>))
+   /\ P(CaseRec("long", "Unsqueeze", <<>>, <<X, I64(<<0, 2>>)>>, SemUnsqueeze(X, I64(<<0, 2>>)), <<"valid", "long">>))
+   /\ P(CaseRec("long", "Shape", <<>>, <<X2>>, SemShape(X2), <<"valid", "long">>))
+
 Init ==
    \/ ("reshape" \in Fams /\ st \in [fam : {"reshape"}, shape : {s \in InShapes : Len(s) <= ReshapeRank}, target : Targets, done : {FALSE}])
    \/ ("reshape" \in Fams /\ st \in [fam : {"reshape0"}, shape : {s \in InShapes : Len(s) <= 2}, v : TargetVals \cup {5}, done : {FALSE}])
@@ -86,7 +97,7 @@ Emit ==
                                   /\ \A axes \in AxesLists(Len(st.shape), AxesLen) : P(SqueezeCase(st.shape, axes, FALSE))
         [] st.fam = "unsqueeze" -> \A axes \in AxesLists(Len(st.shape) + 1, MinI(AxesLen, 5 - Len(st.shape))) :
                                       (Len(axes) > 1 => Range(axes) \subseteq AxisVals(Len(st.shape) + Len(axes))) => P(UnsqueezeCase(st.shape, axes))
-        [] st.fam = "shape"    -> P(ShapeCase(st.shape, "f32")) /\ (Len(st.shape) <= 2 => ExtremeAxisCases(st.shape))
+        [] st.fam = "shape"    -> P(ShapeCase(st.shape, "f32")) /\ (Len(st.shape) <= 2 => ExtremeAxisCases(st.shape)) /\ (st.shape = <<>> => LongCases)
         [] st.fam = "dtypes"   -> \A i \in 1..5 : P(DtypeCases(st.dt, st.shape)[i])
    /\ st' = [st EXCEPT !.done = TRUE]
 Next == Emit
